@@ -505,17 +505,20 @@ class Atom:
 
         def norm(cfgs):
             """configurations with the same variant knowledge are merged; beyond 8 the knowledge is dropped"""
+            def wmin(x, y):
+                # deterministic and monotone choice of the description (set iteration order must not matter)
+                return x if y is None else (y if x is None else min(x, y))
             by = {}
             for M_, p_, w_, k_ in cfgs:
                 if k_ in by:
                     a = by[k_]
-                    by[k_] = (a[0] | M_, a[1] | p_, a[2] or w_, k_)
+                    by[k_] = (a[0] | M_, a[1] | p_, wmin(a[2], w_), k_)
                 else:
                     by[k_] = (M_, p_, w_, k_)
             if len(by) > 8 or any(("*", "*") in k_ for k_ in by):
                 M_, p_, w_ = frozenset(), frozenset(), None
                 for a in by.values():
-                    M_, p_, w_ = M_ | a[0], p_ | a[1], w_ or a[2]
+                    M_, p_, w_ = M_ | a[0], p_ | a[1], wmin(w_, a[2])
                 return frozenset({(M_, p_, w_, frozenset({("*", "*")}))})
             return frozenset(by.values())
 
